@@ -17,7 +17,7 @@ import (
 //	ls <addr>                      -> lockStakeUntil
 //	c <id>                         -> symbol version volume reserve crr maxSupply owner mintable burnable
 //	cand <id>                      -> pubkey owner reward control commission status jailedUntil lastEditH totalBip
-//	st <candId> <idx>              -> owner coin value bip
+//	st <candId> <owner> <coin>     -> idx value bip
 //	up <candId> <idx>              -> owner coin value bip
 //	wl <candId> <owner> <coin>     -> value
 //	ff <height> <idx>              -> addr candKey candId coin value moveTo
@@ -73,7 +73,7 @@ func DumpState(st *types.AppState) Dump {
 	for _, c := range st.Candidates {
 		d[fmt.Sprintf("cand %d", c.ID)] = fmt.Sprintf("%s %s %s %s %d %d %d %d %s", hexs(c.PubKey[:]), hexs(c.OwnerAddress[:]), hexs(c.RewardAddress[:]), hexs(c.ControlAddress[:]), c.Commission, c.Status, c.JailedUntil, c.LastEditCommissionHeight, c.TotalBipStake)
 		for i, s := range c.Stakes {
-			d[fmt.Sprintf("st %d %d", c.ID, i)] = fmt.Sprintf("%s %d %s %s", hexs(s.Owner[:]), s.Coin, s.Value, s.BipValue)
+			d[fmt.Sprintf("st %d %s %d", c.ID, hexs(s.Owner[:]), s.Coin)] = fmt.Sprintf("%d %s %s", i, s.Value, s.BipValue)
 		}
 		for i, s := range c.Updates {
 			d[fmt.Sprintf("up %d %d", c.ID, i)] = fmt.Sprintf("%s %d %s %s", hexs(s.Owner[:]), s.Coin, s.Value, s.BipValue)
